@@ -277,6 +277,7 @@ namespace {
         for (int i : roots)
             if (T[(size_t) i]->submitter == 0 || T[(size_t) i]->submitter > nsubmitters) submit(i);
         for (auto& th : subs) th.join();
+        while (g_completed < n) main_pause(3000000);
         sim_quiesce(3000000);
         pika::wait();
         for (int i = 0; i < n; i++)
